@@ -72,6 +72,7 @@ import Sipsp.Proofs.HdrTyped
 import Sipsp.Proofs.HdrSound
 import Sipsp.Proofs.ResumedConverse
 import Sipsp.Proofs.AuditFixC
+import Sipsp.Proofs.Leftovers2
 
 namespace Sipsp.C07
 open Sipsp
@@ -389,5 +390,15 @@ theorem block_ok_iff_schedule_in : type_of% @Sipsp.afc_block_ok_iff_schedule := 
 theorem block_report_schedule_in : type_of% @Sipsp.afc_block_report_schedule := @Sipsp.afc_block_report_schedule
 
 theorem generic_in_of_generic : type_of% @Sipsp.HsGeneric.afc_in := @Sipsp.HsGeneric.afc_in
+
+/-! ### the verdict list with the generic-treatment hypothesis restricted to a region chosen by the caller (proved in `Sipsp.Proofs.Leftovers2`) -/
+
+/-- **one ParseHeaders call** (list object in the state of a new one), hypothesis restricted to the line starts below
+    `e'`: the verdict is OK / empty / MoreBytes / BadChar, or the text holds header lines of the grammar from `o` up
+    to a line start at or beyond `e'` -/
+theorem block_verdicts_in : type_of% @Sipsp.lo2_block_verdicts_in := @Sipsp.lo2_block_verdicts_in
+
+/-- **every chunk schedule** (restricted form of `rc_block_verdicts_schedule`; `B` the last buffer) -/
+theorem block_verdicts_schedule_in : type_of% @Sipsp.lo2_block_verdicts_schedule_in := @Sipsp.lo2_block_verdicts_schedule_in
 
 end Sipsp.C07
